@@ -175,6 +175,40 @@ def fam_for_states(n):
     return fams
 
 
+RESTRICT = 'get_equivalent_restricted_formula'   # meaning preserving (C05)
+
+
+def _plain_atom(i):
+    return oracle.hole_atom(i) + '_plain'
+
+
+def _subst_rhs(t, mh, mr):
+    """right-hand side: a rewritten child c' (hole) stands for the fair
+    meaning of the child, a child used as it is (raw) for its ordinary
+    meaning -- two different things on a structure with unfair paths"""
+    if t[0] == 'hole':
+        return mh.get(t[1], t)
+    if t[0] == 'raw':
+        return mr.get(t[1], t)
+    if t[0] == 'LNot':
+        return ('LNot', _subst_rhs(t[1], mh, mr))
+    if t[0] in ('atom', 'bool'):
+        return t
+    return t[:2] + tuple(_subst_rhs(x, mh, mr) for x in t[2:])
+
+
+def _raws_of(t, acc=None):
+    acc = set() if acc is None else acc
+    if t[0] == 'raw':
+        acc.add(t[1])
+    elif t[0] == 'LNot':
+        _raws_of(t[1], acc)
+    elif t[0] not in ('atom', 'bool', 'hole'):
+        for x in t[2:]:
+            _raws_of(x, acc)
+    return acc
+
+
 def decide_fair(lhs, rhs, tier, state_holes):
     """LHS under fair semantics == RHS under ordinary semantics on the
     structure whose fair states carry the label $fair"""
@@ -186,12 +220,16 @@ def decide_fair(lhs, rhs, tier, state_holes):
     total = 0
     for inst in insts:
         if inst is None:
-            l2, r2 = lhs, rhs
+            # state holes: the ordinary meaning of a child is a set of
+            # states of its own (an atom independent of the fair meaning)
+            l2 = lhs
+            r2 = _subst_rhs(rhs, {}, {i: ('atom', _plain_atom(i))
+                                      for i in _raws_of(rhs)})
         else:
             m = {i: inst(i) for i in hs}
             mf = {i: fair_atoms(inst(i)) for i in hs}
             l2 = oracle.subst(lhs, m)
-            r2 = oracle.subst(rhs, mf)
+            r2 = _subst_rhs(rhs, mf, m)
         atoms = sorted((set(oracle._atoms(l2)) | set(oracle._atoms(r2)) |
                         set(oracle.hole_atom(i) for i in
                             oracle.holes_of(l2) | oracle.holes_of(r2))) -
@@ -235,7 +273,7 @@ def rules_f24(prog, tier):
     seen = set()
     for (lang, name, ci, kids, lhs) in insts:
         f, outs = extract(prog, ci, METHOD, kids, extra_args=[fair],
-                          rule='R-F-2')
+                          rule='R-F-2', equiv=(RESTRICT,))
         terms = [t for (t, p) in outs if t[0] != 'raise']
         raises = [t for (t, p) in outs if t[0] == 'raise']
         desc = dict(lang=lang, rule=name, method=f.short(), lhs=show(lhs),
@@ -537,9 +575,58 @@ def _pshow(v):
     return repr(v)[:160]
 
 
+def rule_f6(prog):
+    """`for every F no call ... modifies K`: get_fair_states is a query; it
+    writes nothing reachable from the structure or from F (no cache that a
+    later call would read, no edit of a label set), and what it returns is
+    not an object the structure or the caller's F keeps"""
+    from .c07 import effects
+    r = RuleResult('R-F-6', 'get_fair_states writes nothing reachable from '
+                   'the structure or F and returns an object of its own')
+    E = effects(prog)
+    kc = prog.cls('kripke.Kripke')
+    f = prog.method(kc, 'get_fair_states')
+    if f is None:
+        raise AnalysisError('Kripke.get_fair_states not found')
+    s = E.summ.get(f.qn)
+    if s is None or s.failed:
+        raise Inconclusive('R-F-6', 'no effect summary for %s: %s' % (
+            f.short(), s.failed if s else 'not analysed'), f.where())
+    for i, n in enumerate(s.pnames):
+        why = s.mutates.get(i)
+        r.inst(function=f.short(), parameter=n, modified=bool(why),
+               how=(why or [None])[0], result_aliases_it=i in s.ralias)
+        if why:
+            r.fail(Finding(
+                PROP, 'R-F-6', f.where(), f.short(), 'writes:%s' % n,
+                'get_fair_states modifies `%s`: %s -- a query on K leaves a '
+                'trace that later calls (after the structure, F or the '
+                'returned set have been changed) can observe' % (n, why[0]),
+                expected='no write to the structure or to F',
+                found=why[0]))
+        else:
+            r.ok()
+        if i in s.ralias:
+            r.fail(Finding(
+                PROP, 'R-F-6', f.where(), f.short(), 'returns-alias:%s' % n,
+                'the set returned by get_fair_states is (part of) `%s`: '
+                'editing the result edits the structure / the constraints' %
+                n))
+        else:
+            r.ok()
+    if s.opaque:
+        u = Inconclusive('R-F-6', 'get_fair_states hands its arguments to a '
+                         'computed function value: %s' % (s.opaque[0],),
+                         f.where())
+        u.partial = r
+        raise u
+    return r
+
+
 def run(prog, tier, seed):
     T = Attempts()
     r1 = T(rule_f1, prog, tier)
+    r6 = T(rule_f6, prog)
     r2, r4 = T(rules_f24, prog, tier, _n=2)
     r3, r5 = T(rule_f35, prog, _n=2)
     expl = ('(1) get_fair_states is summarised by abstract interpretation as '
@@ -564,5 +651,12 @@ def run(prog, tier, seed):
     from . import c19
     dep = adopt(T.results(T(c19.rule_res5, prog)), PROP,
                 'the fair label must not capture an atom of the structure')
-    return T.results(r1, r2, r4, r3, r5) + dep, expl, assumptions, \
+    # "no call modifies K": fairness labels are written into a clone; the
+    # clone must not share label sets with K
+    from . import c13, c14
+    adj = T(c13.adjacency_field, prog)
+    if adj:
+        dep = dep + adopt(T.results(T(c14.rule_k4, prog, adj)), PROP,
+                          'the clone label_fair_states writes into')
+    return T.results(r1, r2, r4, r3, r5, r6) + dep, expl, assumptions, \
         T.extra()
